@@ -39,6 +39,13 @@ class CsvReader(Filter[Iterable[str], Iterable[MutableSequence]]):
         else:
             return chain([first],lines)
 
+def _is_quote_closed(item: str) -> bool:
+    #The item starts with a quote char. It is closed when it ends with the same quote char and that ending quote
+    #char is not escaped (i.e., it is preceded by an even number of backslashes). A lone quote char is not closed.
+    item = item.rstrip()
+    if len(item) < 2 or item[-1] != item[0]: return False
+    return (len(item[1:-1]) - len(item[1:-1].rstrip('\\'))) % 2 == 0
+
 class ArffAttrReader(Filter[Iterable[str], Iterable[Tuple[str,Callable]]]):
 
     class CategoricalDict(dict):
@@ -83,8 +90,7 @@ class ArffAttrReader(Filter[Iterable[str], Iterable[Tuple[str,Callable]]]):
                     break
 
                 if item[0] in quotes:
-                    q  = item[0]
-                    while item.rstrip()[-1] != q or item.rstrip()[-2]=="\\":
+                    while not _is_quote_closed(item):
                         item += next(items)
 
                     item = item.strip().rstrip()[1:-1].replace("\\",'')
@@ -262,8 +268,7 @@ class ArffLineReader(Filter[str, Sequence[str]]):
             item = d_line.popleft().lstrip()
 
             if item[0] in self._quotes:
-                possible_quotechar = item[0]
-                while item.rstrip()[-1] != possible_quotechar or item.rstrip()[-2] == "\\":
+                while not _is_quote_closed(item):
                     item += "," + d_line.popleft()
                 item = item.strip()[1:-1]
 
